@@ -517,12 +517,21 @@ class C12:
             route = case["route"]
             obs = []
 
-            def make(path_name, size):
-                p = os.path.join(scratch, "hist", path_name, "payload.bin")
+            def make(path_name, size, via_link=False):
+                root = os.path.join(scratch, "hist", path_name)
+                if via_link:
+                    # the bytes sit behind a directory symlink inside the payload (followed by the file listing)
+                    store = os.path.join(scratch, "hist", path_name + "-store")
+                    os.makedirs(store, exist_ok=True)
+                    os.makedirs(root, exist_ok=True)
+                    if not os.path.lexists(os.path.join(root, "linked")):
+                        os.symlink(store, os.path.join(root, "linked"))
+                    p = os.path.join(store, "payload.bin")
+                else:
+                    p = os.path.join(root, "payload.bin")
                 os.makedirs(os.path.dirname(p), exist_ok=True)
                 with open(p, "ab") as fd:
                     fd.truncate(size)
-                root = os.path.dirname(p)
                 out = os.path.join(scratch, "hist", f"o{len(obs)}.torrent")
                 if route == "config":
                     ini = os.path.join(scratch, "hist", "c.ini")
@@ -537,8 +546,16 @@ class C12:
                 if not oc.ok:
                     viol.append(oracles.V("auto-create-raised", route=route, size=size, exc=oc.excname()))
                     return
-                rec = oracles.decode_meta(oc.raw)[1].get(b"piece length").value
-                obs.append((size, rec, path_name))
+                info = oracles.decode_meta(oc.raw)[1]
+                rec = info.get(b"piece length").value
+                # the payload size is what the metafile itself lists
+                if b"files" in info:
+                    listed = sum(l for _, l, _ in rt.v1_entries(info))
+                elif b"file tree" in info:
+                    listed = sum(leaf.get(b"length").value for _, leaf in rt.v2_leaves(info.get(b"file tree")))
+                else:
+                    listed = info.get(b"length").value
+                obs.append((listed, rec, path_name))
             big = T + r.choice([1, 16384, 600000])
             make("A", big)                       # 2^15 expected
             make("A", r.choice([1, 1 << 20, T]))  # same path, shrunk below the threshold
@@ -546,6 +563,7 @@ class C12:
             make("A", 2 * T + 1)                 # grown across the next threshold
             make("C", r.choice([100, 3 << 20]))
             make("B", 2 * T + 5)
+            make("L", 2 * T + r.choice([7, 70000]), via_link=True)
             judge_log("route")
             for size, rec, pn in obs:
                 if not (_is_pow2(rec) and 2 ** 14 <= rec <= 2 ** 24):
